@@ -121,7 +121,7 @@ func (e *Engine) exec(c *Config, steps *int) ([]*Config, *leaf) {
 			default:
 				// value-dependent branch: both ways
 				if e.Trace {
-					fmt.Printf("VDEP-BRANCH %s cond=%s val=%s\n", e.W.Pos(ins.Pos()), ins.Cond.Name(), valString(cond))
+					fmt.Printf("VDEP-BRANCH %s %s cond=%s val=%s\n", f.Fn.Name(), e.W.Pos(ins.Pos()), ins.Cond.Name(), valString(cond))
 				}
 				a, b := c, c.clone()
 				a.VDep, b.VDep = true, true
@@ -602,6 +602,16 @@ func (e *Engine) binop(c *Config, f *Frame, ins *ssa.BinOp) (Val, bool) {
 	}
 	// arithmetic
 	t := ins.Type()
+	if _, isNZ := x.(NZ); isNZ && (op == token.ADD || op == token.SUB || op == token.OR || op == token.XOR) {
+		if yv, ok := y.(IntV); ok && yv.F.isConst() && yv.F.K == 0 {
+			return NZ{}, false
+		}
+	}
+	if _, isNZ := y.(NZ); isNZ && (op == token.ADD || op == token.OR || op == token.XOR) {
+		if xv, ok := x.(IntV); ok && xv.F.isConst() && xv.F.K == 0 {
+			return NZ{}, false
+		}
+	}
 	switch xv := x.(type) {
 	case IntV:
 		switch yv := y.(type) {
@@ -835,6 +845,10 @@ func (e *Engine) value(c *Config, f *Frame, ins ssa.Value) (Val, *leaf) {
 			return r, nil
 		case SetV:
 			return arithSet(token.ADD, xv, 0, false, ins.Type()), nil
+		case NZ:
+			if sizeOf(ins.Type()) >= sizeOf(ins.X.Type()) {
+				return NZ{}, nil
+			}
 		}
 		return Top{}, nil
 	case *ssa.ChangeType:
@@ -1212,6 +1226,14 @@ func (e *Engine) machineCall(c *Config, f *Frame, ins *ssa.Call, callee *ssa.Fun
 				vs[errIdx] = ErrV{Kind: ErrNil}
 			}
 		} else {
+			old := n.Bytes
+			for _, fr := range n.Frames {
+				for k, v := range fr.Env {
+					fr.Env[k] = collapseAll(v, old)
+				}
+			}
+			n.Bytes = [2]lts.ByteSet{lts.Full(), lts.Full()}
+			n.Rel = RelUnknown
 			if offIdx >= 0 {
 				vs[offIdx] = Top{}
 			}
@@ -1423,6 +1445,13 @@ func (e *Engine) isSignOnly(fn *ssa.Function, v ssa.Value) bool {
 	if !ok {
 		m = e.computeSignOnly(fn)
 		e.signOnly[fn] = m
+		if e.Trace {
+			var names []string
+			for v := range m {
+				names = append(names, v.Name())
+			}
+			fmt.Printf("SIGNONLY %s: %v\n", fn.Name(), names)
+		}
 	}
 	return m[v]
 }
@@ -1557,4 +1586,20 @@ func coarsenSign(val Val) Val {
 		return NZ{}
 	}
 	return val
+}
+
+func sizeOf(t types.Type) int {
+	b, ok := t.Underlying().(*types.Basic)
+	if !ok {
+		return 0
+	}
+	switch b.Kind() {
+	case types.Int8, types.Uint8:
+		return 1
+	case types.Int16, types.Uint16:
+		return 2
+	case types.Int32, types.Uint32:
+		return 4
+	}
+	return 8
 }
